@@ -107,6 +107,7 @@ func c09(c *Ctx) {
 	r.Floor("C09.R3", 2)
 	r.Floor("C09.R4", 3)
 	r.Floor("C09.R5", 1)
+	r.Floor("C09.R6", 1)
 	argFns := p.FuncsIn("arg")
 	needNil := []int64{22, 20, 23, 21, 18, 19}
 	// converter = functions of package arg that call reflect.Zero and have a reflect.Type parameter
@@ -151,7 +152,7 @@ func c09(c *Ctx) {
 			}
 			cons := "nil arm of " + shortName(f)
 			if !underNil {
-				r.Und("C09.R1", cons, p.Pos(posOf(z)), "reflect.Zero is not in a region guarded by value==nil; cannot identify the nil arm")
+				r.Bad("C09.R1", cons, p.Pos(posOf(z)), "the typed-zero substitution is not confined to the untyped nil input (no dominating `value == nil` test on the supplied interface): a typed nil or other value given for an interface-typed result/parameter is replaced by the nil interface and loses its dynamic type")
 				continue
 			}
 			r.Check(len(missing) == 0, "C09.R1", cons, p.Pos(posOf(z)), "nil arm covers "+kindSetString(ks),
@@ -226,6 +227,13 @@ func c09(c *Ctx) {
 				if strings.Contains(cv.X.Type().String(), "unsafe.Pointer") && strings.Contains(cv.Type().String(), "reflect.Value") {
 					isCaster = true
 				}
+				// role: (reflect.Value, reflect.Type) → reflect.Value helper that goes through unsafe.Pointer
+				sig := f.Signature
+				if sig.Params().Len() == 2 && sig.Results().Len() == 1 && strings.HasSuffix(sig.Params().At(0).Type().String(), "reflect.Value") &&
+					strings.HasSuffix(sig.Params().At(1).Type().String(), "reflect.Type") && strings.HasSuffix(sig.Results().At(0).Type().String(), "reflect.Value") &&
+					(strings.Contains(cv.X.Type().String(), "unsafe.Pointer") || strings.Contains(cv.Type().String(), "unsafe.Pointer")) {
+					isCaster = true
+				}
 			}
 		})
 		if isCaster {
@@ -243,6 +251,77 @@ func c09(c *Ctx) {
 			r.Check(okSz, "C09.R3", "unsafe retyping "+shortName(cf)+" called from "+shortName(cs.Caller), p.Pos(posOf(cs.Instr)), "retyping dominated by size equality",
 				"the unsafe retyping helper is reachable without a dominating size-equality check: a stand-in of different size is reinterpreted")
 		}
+	}
+	// R6: the retyping helper swaps only the type word: data pointer and flag word of the original value are kept
+	for _, cf := range casters {
+		okShape := false
+		why := "the result is not rebuilt from a (type, pointer, flag) triple"
+		for _, ret := range returnsOf(cf) {
+			rv := retResult(ret, 0)
+			// result = *(*reflect.Value)(unsafe.Pointer(&hack.Value{...})) : a load through a converted pointer to a local triple
+			ld, ok := rv.(*ssa.UnOp)
+			if !ok {
+				continue
+			}
+			var lit *ssa.Alloc
+			cur := ld.X
+			for k := 0; k < 4; k++ {
+				if cv, ok := cur.(*ssa.Convert); ok {
+					cur = cv.X
+					continue
+				}
+				if a, ok := cur.(*ssa.Alloc); ok {
+					lit = a
+				}
+				break
+			}
+			if lit == nil {
+				continue
+			}
+			vals := map[string]ssa.Value{}
+			for _, ref := range *lit.Referrers() {
+				if fa, ok := ref.(*ssa.FieldAddr); ok {
+					for _, r2 := range *fa.Referrers() {
+						if st, ok := r2.(*ssa.Store); ok && st.Addr == ssa.Value(fa) {
+							vals[fieldVar(fa.X.Type(), fa.Field).Name()] = st.Val
+						}
+					}
+				}
+			}
+			// origin view: fields loaded through a pointer converted from the address of the value parameter
+			fromOrigin := func(v ssa.Value, field string) bool {
+				_, fv, ok := fieldRef(resolveLocal(v))
+				if !ok || fv == nil || fv.Name() != field {
+					return false
+				}
+				b, _, _ := fieldRef(resolveLocal(v))
+				for k := 0; k < 4; k++ {
+					if cv, ok := b.(*ssa.Convert); ok {
+						b = cv.X
+					}
+				}
+				a, ok := b.(*ssa.Alloc)
+				if !ok {
+					return false
+				}
+				for _, ref := range *a.Referrers() {
+					if st, ok := ref.(*ssa.Store); ok && st.Addr == ssa.Value(a) && st.Val == ssa.Value(cf.Params[0]) {
+						return true
+					}
+				}
+				return false
+			}
+			okPtr := vals["Ptr"] != nil && fromOrigin(vals["Ptr"], "Ptr")
+			okFlag := vals["Flag"] != nil && fromOrigin(vals["Flag"], "Flag")
+			okTyp := vals["Typ"] != nil && !fromOrigin(vals["Typ"], "Typ") && dependsOn(vals["Typ"], func(x ssa.Value) bool { return x == ssa.Value(cf.Params[1]) })
+			if okPtr && okFlag && okTyp {
+				okShape = true
+			} else {
+				why = "the rebuilt value does not take its data pointer and flag word from the original value and its type word from the target type"
+			}
+		}
+		r.Check(okShape, "C09.R6", "retyping helper "+shortName(cf)+" swaps only the type word", p.Pos(cf.Pos()), "Ptr and Flag copied from the original reflect.Value, Typ from the target type",
+			"the unsafe retyping helper no longer preserves the original value's data pointer and flag word ("+why+"): values stored directly in the interface word (pointer-shaped structs) are dereferenced once too often or lose addressability")
 	}
 	// R4: conversion errors never dropped
 	n := checkErrorsUsed(p, r, "C09.R4", func(callee *ssa.Function) bool { return relPkg(callee) == "arg" }, nil)
